@@ -52,8 +52,10 @@ ASSUMPTIONS = [
     'after every operation; a token left there is judged by its consequence (the next MediaList("tv") must parse)',
 ]
 FLOORS = {
-    'quick': {'states': 300, 'transitions': 15000, 'validated': 40000, 'outcomes': 1500, 'counter:rejected_transitions': 3000, 'set:op_kinds': 6},
-    'thorough': {'states': 1000, 'transitions': 60000, 'validated': 150000, 'outcomes': 5000, 'counter:rejected_transitions': 10000, 'set:op_kinds': 6},
+    'quick': {'states': 2000, 'transitions': 40000, 'validated': 150000, 'outcomes': 20000, 'counter:rejected_transitions': 15000,
+              'counter:query_spellings': 50000, 'set:op_kinds': 6},
+    'thorough': {'states': 6000, 'transitions': 120000, 'validated': 500000, 'outcomes': 50000, 'counter:rejected_transitions': 50000,
+                 'counter:query_spellings': 150000, 'set:op_kinds': 6},
 }
 
 # ----------------------------------------------------------------------------------------
@@ -120,7 +122,7 @@ def bounds(tier):
         'qlist_menu': QL_MENU,
         'qlist_lengths': [2, 3] if not q else [2, 3],
         'qlist_comma_spellings': COMMAS,
-        'malformed_menu': {k: v for k, v, _ in MALFORMED},
+        'malformed_menu': {k: [v, c] for k, v, _, c in MALFORMED},
         'malformed_neighbours': NEIGHBOURS,
     }
 
@@ -1086,32 +1088,35 @@ def qlist_shard(first, tier, seed):
 # -- one malformed member invalidates the whole list ------------------------------------------------
 
 MALFORMED = [
-    # (name, text, balanced parentheses)
-    ('dangling-and', 'screen and', True),
-    ('dangling-and-after-expression', 'screen and (grid) and', True),
-    ('and-then-ident', 'screen and grid', True),
-    ('and-then-number', 'screen and 1', True),
-    ('missing-and', 'screen (grid)', True),
-    ('missing-and-between-expressions', 'screen and (grid) (grid)', True),
-    ('double-and', 'screen and and (grid)', True),
-    ('and-first', 'and (grid)', True),
-    ('unclosed-expression', 'screen and (grid', False),
-    ('stray-close', 'screen and (grid))', False),
-    ('empty-expression', 'screen and ()', True),
-    ('value-missing', 'screen and (min-width:)', True),
-    ('feature-missing', 'screen and (:1px)', True),
-    ('feature-not-ident', 'screen and (1px)', True),
-    ('unknown-type', 'foo', True),
-    ('unknown-type-with-expression', 'foo and (grid)', True),
-    ('number-as-type', '3d', True),
-    ('prefix-only-not', 'not', True),
-    ('prefix-only-only', 'only', True),
-    ('prefix-then-expression', 'not (grid)', True),
-    ('two-types', 'screen tv', True),
-    ('type-after-expression', 'screen and (grid) tv', True),
-    ('expression-then-type', '(grid) and screen', True),
-    ('empty-member', '', True),
-    ('semicolon', 'screen;', True),
+    # (name, text, balanced parentheses, class = the essential ingredient used in signatures)
+    #   incomplete: a query that has begun lacks a mandatory part when the offending token / the end arrives
+    #   extra-token: tokens follow a complete query without a comma
+    #   bad-start: the member does not start like a query at all
+    ('dangling-and', 'screen and', True, 'incomplete'),
+    ('dangling-and-after-expression', 'screen and (grid) and', True, 'incomplete'),
+    ('and-then-ident', 'screen and grid', True, 'incomplete'),
+    ('and-then-number', 'screen and 1', True, 'incomplete'),
+    ('unclosed-expression', 'screen and (grid', False, 'incomplete'),
+    ('empty-expression', 'screen and ()', True, 'incomplete'),
+    ('value-missing', 'screen and (min-width:)', True, 'incomplete'),
+    ('feature-missing', 'screen and (:1px)', True, 'incomplete'),
+    ('feature-not-ident', 'screen and (1px)', True, 'incomplete'),
+    ('expression-then-type', '(grid) and screen', True, 'incomplete'),
+    ('double-and', 'screen and and (grid)', True, 'incomplete'),
+    ('prefix-only-not', 'not', True, 'incomplete'),
+    ('prefix-only-only', 'only', True, 'incomplete'),
+    ('prefix-then-expression', 'not (grid)', True, 'incomplete'),
+    ('missing-and', 'screen (grid)', True, 'extra-token'),
+    ('missing-and-between-expressions', 'screen and (grid) (grid)', True, 'extra-token'),
+    ('stray-close', 'screen and (grid))', False, 'extra-token'),
+    ('two-types', 'screen tv', True, 'extra-token'),
+    ('type-after-expression', 'screen and (grid) tv', True, 'extra-token'),
+    ('semicolon', 'screen;', True, 'extra-token'),
+    ('and-first', 'and (grid)', True, 'bad-start'),
+    ('unknown-type', 'foo', True, 'bad-start'),
+    ('unknown-type-with-expression', 'foo and (grid)', True, 'bad-start'),
+    ('number-as-type', '3d', True, 'bad-start'),
+    ('empty-member', '', True, 'bad-start'),
 ]
 NEIGHBOURS = ['tv', 'print and (grid)', '(min-width:1px)']
 
@@ -1123,9 +1128,8 @@ def _judge_malformed(res, case):
     pos = case['pos']
     text = ', '.join(members)
     nxt = 'comma' if pos < len(members) - 1 else 'end'
-    prv = 'comma' if pos > 0 else 'start'
-    sig = f'{name}|before={nxt}'  # what follows the malformed member is essential (hand-back at the comma), what precedes is not
-    c_prv = prv
+    # essential: how the member is malformed (class) and what follows it (hand-back at the comma); not: what precedes, which text
+    sig = f'{case["class"]}|before={nxt}'
     c = dict(case, text=text)
     res.evaluations += 1
     res.nontrivial += 1
@@ -1138,7 +1142,7 @@ def _judge_malformed(res, case):
             got = ['accepted', ml.mediaText, ml.length, ml.wellformed]
         except xml.dom.DOMException as e:
             got = None
-            res.outcomes.add(h64(['rejected', name, type(e).__name__]))
+            res.outcomes.add(h64(['rejected', name, nxt, type(e).__name__, str(e)[:40]]))
         except Exception as e:
             got = ['crash', guard.crash_site(e)]
         hidden = _hidden()
@@ -1193,14 +1197,14 @@ def _judge_malformed(res, case):
 
 def malformed_shard(mi, tier, seed):
     res = Result(seed)
-    name, bad, balanced = MALFORMED[mi]
+    name, bad, balanced, cls = MALFORMED[mi]
     for n in (1, 2, 3):
         for pos in range(n):
             for nb in itertools.product(NEIGHBOURS, repeat=n - 1):
                 members = list(nb[:pos]) + [bad] + list(nb[pos:])
                 if not bad and n == 1:
                     continue  # the empty text is the `mediaText=""` operation of the search
-                case = {'kind': 'malformed', 'name': name, 'members': members, 'pos': pos, 'balanced': balanced}
+                case = {'kind': 'malformed', 'name': name, 'class': cls, 'members': members, 'pos': pos, 'balanced': balanced}
                 _judge_malformed(res, case)
                 if h64(jdump(case)) % 97 == 0:
                     res.sample(case)
